@@ -91,25 +91,26 @@ Inductive lsrc :=
 | LStart (v : val)                (* start(f): likewise *)
 | LDefer (inner : lsrc)           (* defer(factory): the factory is called by actual_subscribe *)
 | LCreate (script : list ev)      (* create(f): f is called with the subscriber *)
-| LIter (n : nat).                (* from_iter over a counting iterator 0..n-1 (pulls are counted) *)
+| LIter (n : nat)                 (* from_iter over a counting iterator 0..n-1 (pulls are counted) *)
+| LColl (n : nat).                (* from_iter over a collection whose into_iter() is counted, and the pulls of its iterator *)
 
 Fixpoint lscript (s : lsrc) : list ev :=
   match s with
   | LOfFn v | LStart v => [Next v; Done]
   | LDefer i => lscript i
   | LCreate script => slot script
-  | LIter n => map (fun k => Next (VZ (Z.of_nat k))) (seq 0 n) ++ [Done]
+  | LIter n | LColl n => map (fun k => Next (VZ (Z.of_nat k))) (seq 0 n) ++ [Done]
   end.
 
 (* closure calls of the source caused by one subscription, not counting iterator pulls *)
 Fixpoint factory_calls (s : lsrc) : nat :=
   match s with
-  | LOfFn _ | LStart _ | LCreate _ => 1
+  | LOfFn _ | LStart _ | LCreate _ | LColl _ => 1
   | LDefer i => 1 + factory_calls i
   | LIter _ => 0
   end.
 
-Fixpoint is_iter (s : lsrc) : bool := match s with LIter _ => true | LDefer i => is_iter i | _ => false end.
+Fixpoint is_iter (s : lsrc) : bool := match s with LIter _ | LColl _ => true | LDefer i => is_iter i | _ => false end.
 
 (* building the pipeline value calls nothing; k subscriptions call k times what one calls *)
 Definition calls_after (per_subscription : nat) (subscriptions : nat) : nat := subscriptions * per_subscription.
